@@ -991,7 +991,18 @@ func partSealer(run *ev.Run, col *collector, capped func() bool) {
 						run.Cap("part sealer: deadline reached")
 						return
 					}
-					for _, preset := range []bool{true, false} {
+					for _, preset := range []string{"scheduled", "unset", "stale"} {
+						// stale: the template still carries the version of the height before (a header copied from
+						// its parent at the first block of a version-changing fork); the version is a function of
+						// the height alone, whatever the template says
+						cfgv := tg.cfg
+						if cfgv == nil {
+							cfgv = params.TestChainConfig
+						}
+						prevV := byte(cfgv.GetBlockVersion(big.NewInt(tg.number - 1)))
+						if preset == "stale" && (tg.number < 1 || prevV == tg.version || prevV == 0) {
+							continue
+						}
 						h := shapes()[1+rep%2].mk()
 						h.Number = big.NewInt(tg.number)
 						h.Difficulty = big.NewInt(d)
@@ -999,10 +1010,14 @@ func partSealer(run *ev.Run, col *collector, capped func() bool) {
 						// preset: the block carries the scheduled version, as the node's worker and Finalize
 						// hand it over; unset: Seal itself has to stamp the version it derives from the schedule
 						scn, id := "sealer", fmt.Sprintf("v%d/threads=%d", tg.version, threads)
-						if preset {
+						switch preset {
+						case "scheduled":
 							h.Version = types.HeaderVersion(tg.version)
-						} else {
+						case "unset":
 							scn, id = "sealer-version-unset", fmt.Sprintf("v%d", tg.version)
+						case "stale":
+							h.Version = types.HeaderVersion(prevV)
+							scn, id = "sealer-version-stale", fmt.Sprintf("v%d-template-says-v%d", tg.version, prevV)
 						}
 						e.SetThreads(threads)
 						blk := sealBounded(e, tg.cfg, h)
@@ -1017,7 +1032,7 @@ func partSealer(run *ev.Run, col *collector, capped func() bool) {
 						run.Eval(1)
 						if col.check(scn, "returned-seal-verifies", id, det, func() string { return probeSealed(h, tg.version, out) }) {
 							run.Class(fmt.Sprintf("%s/v%d/threads=%d/d=%d", scn, tg.version, threads, d))
-							if rep == 0 && threads == 2 && d == 256 && preset {
+							if rep == 0 && threads == 2 && d == 256 && preset == "scheduled" {
 								run.Sample(map[string]interface{}{"part": "sealer", "version": tg.version, "threads": threads, "difficulty": d, "nonce": out.Nonce.Uint64()})
 							}
 						}
